@@ -6,7 +6,7 @@
    (valid edit scripts, hunks separated by an unchanged line, no hunks for equal texts, equal scripts for
    equal sides).  The result is [Ok (bytes written to out, resolution = Conflict?)]. *)
 From GixV.Base Require Import Bytes BytesFacts Outcome.
-From GixV.C45 Require Import Model Proofs Proofs2.
+From GixV.C45 Require Import Model Proofs Proofs2 Proofs3.
 
 (* the main loop terminates for every input (also for scripts violating the contract) *)
 Theorem merge_never_hangs : forall base ours theirs lb c hc ho,
@@ -101,6 +101,24 @@ Definition never_panics_full_statement : Prop := forall base ours theirs lb c hc
 (* both sides made the same change: the result is that change *)
 Definition same_change_full_statement : Prop := forall base ours lb c hc ho,
   contract (mk_env base ours ours) hc ho = true -> merge base ours ours lb c hc ho = Ok (ours, false).
+
+(* ... proved for the modes that do not contract hunks: Keep Diff3 (any marker size), ResolveWithOurs,
+   ResolveWithTheirs ([plain_mode]); result byte-identical, conflict-free, no panic.  Merge / ZealousDiff3 / union:
+   tested only. *)
+Theorem same_change_partial : forall base ours lb c hc ho, plain_mode c ->
+  contract (mk_env base ours ours) hc ho = true -> merge base ours ours lb c hc ho = Ok (ours, false).
+Proof. exact L_same_change. Qed.
+
+Example same_change_example :
+  let base := bs "a
+b
+c" in
+  let ours := bs "a
+c" in
+  plain_mode (Keep Diff3 3) /\
+  contract (mk_env base ours ours) [(1, 3, 1, 2)]%nat [(1, 3, 1, 2)]%nat = true /\
+  merge base ours ours (mkLabels None None None) (Keep Diff3 3) [(1, 3, 1, 2)]%nat [(1, 3, 1, 2)]%nat = Ok (ours, false).
+Proof. split; [constructor | split; reflexivity]. Qed.
 
 (* known class resolve-glued-eof-line: read on BYTES, "the ours resolution contains only lines of the inputs" is
    false: a piece that is an unterminated last line can be followed by another piece, and the two run together.
